@@ -446,11 +446,109 @@ def run_zero_state(case, drv):
     return ok(nontrivial=True, **tags)
 
 
+# ----------------------------------------------------------------------------- the Gibbs chain itself
+def gen_gibbs_chain(rng, tier):
+    if rng.random() < .6:
+        case = gen.rand_bn(rng, nmin=2, nmax=3, maxcard=3, name_kind="str", label_kind=rng.choice(["int", "permint", "str"]), mincard=2,
+                           positive=rng.random() < .6)
+        case["kind"] = "bn"
+        if rng.random() < .6:
+            # tempered CPDs (every column mixed half-and-half with the uniform column): a fast-mixing chain, frequencies are compared
+            for c in case["cpds"]:
+                k = len(c["table"])
+                c["table"] = [[rs((Fraction(x) + Fraction(1, k)) / 2) for x in row] for row in c["table"]]
+            case["tempered"] = True
+    else:
+        from harness import mnet
+        case = mnet.gen_mn_case(rng, nmin=2, nmax=3, dup=False, label_kind="int")
+        case["kind"] = "mn"
+    case["size"] = 12000 if case.get("tempered") else rng.choice([300, 12000])
+    case["seed"] = rng.choice([0, 1, rng.randrange(10 ** 6)])
+    case["api"] = rng.choice(["sample", "sample", "generate_sample"])
+    case["shuffle"] = rng.randrange(10 ** 6)
+    return case
+
+
+def run_gibbs_chain(case, drv):
+    """GibbsSampling.sample / generate_sample: starts at the given state, is reproducible for a seed, never leaves the support of the
+    joint, and (fast-mixing positive models only) visits the joint states with the exact joint's frequencies"""
+    from pgmpy.sampling import GibbsSampling
+    from pgmpy.factors.discrete import State
+    import random
+    names, card = case["nodes"], case["card"]
+    pn = [gen.lab(x) for x in names]
+    n = len(names)
+    if case["kind"] == "bn":
+        model = gen.bn_to_pgmpy(case)
+        fs = gen.bn_model_factors(case)
+    else:
+        from harness import mnet
+        model = mnet.to_markov(case)
+        fs = mnet.model_factors(case)
+    joint = drv.call("bn_joint", fs=fs, vars=list(range(n)), cards=card)
+    table = {tuple(a[v] for v in range(n)): core.model_value(joint, a) for a in core.all_assignments(list(range(n)), card)}
+    z = sum(table.values())
+    if z == 0:
+        return skip("zero joint")
+    start = max(sorted(table), key=lambda k: table[k])          # a state of positive probability
+    st = [State(pn[v], start[v]) for v in range(n)]
+    random.Random(case["shuffle"]).shuffle(st)                   # the start state may list the variables in any order
+    N = case["size"]
+    tags = dict(kind=case["kind"], api=case["api"], size=N, n=n)
+
+    def run(seed):
+        g = GibbsSampling(model)
+        if case["api"] == "sample":
+            df = g.sample(start_state=list(st), size=N, seed=seed)
+            return [tuple(int(df[str(pn[v])].iloc[i]) for v in range(n)) for i in range(len(df))]
+        rows = []
+        for state in g.generate_sample(start_state=list(st), size=N, seed=seed):
+            d = {s_.var: int(s_.state) for s_ in state}
+            rows.append(tuple(d[pn[v]] for v in range(n)))
+        return rows
+    try:
+        rows = run(case["seed"])
+        rows2 = run(case["seed"])
+    except Exception as e:
+        return fail(f"GibbsSampling.{case['api']} raised {type(e).__name__}: {e}", **tags)
+    if len(rows) != N:
+        return fail(f"{case['api']}(size={N}) produced {len(rows)} states", **tags)
+    if rows != rows2:
+        return fail(f"{case['api']}(seed={case['seed']}) is not reproducible", **tags)
+    if case["api"] == "sample" and rows[0] != start:
+        return fail(f"sample(start_state={start}) begins at {rows[0]}", **tags)
+    for i, r_ in enumerate(rows):
+        if any(not (0 <= r_[v] < card[v]) for v in range(n)):
+            return fail(f"state {r_} outside the cardinalities {card}", **tags)
+        if table[r_] == 0:
+            return fail(f"the chain started at {start} (probability {float(table[start] / z)}) reaches {r_} at step {i}, which has probability 0 "
+                        f"in the model: a Gibbs step cannot leave the support", **tags)
+    # frequencies: only where every full conditional is >= 0.15 (fast mixing) and the chain is long
+    minc = 1.0
+    for k_, p_ in table.items():
+        for v in range(n):
+            tot = sum(table[k_[:v] + (x,) + k_[v + 1:]] for x in range(card[v]))
+            if tot:
+                minc = min(minc, float(p_ / tot))
+    if N >= 12000 and minc >= 0.15:
+        from collections import Counter
+        cnt = Counter(rows[N // 10:])
+        M = N - N // 10
+        for k_, p_ in table.items():
+            p = float(p_ / z)
+            if abs(cnt.get(k_, 0) / M - p) > 8 * (p * (1 - p) / M * 8) ** .5 + 0.004:
+                return fail(f"Gibbs chain visits {k_} with frequency {cnt.get(k_, 0) / M:.4f}, exact joint probability {p:.4f} "
+                            f"({M} steps after burn-in, smallest full conditional {minc:.2f})", **tags)
+        return ok(nontrivial=True, freq=True, **tags)
+    return ok(nontrivial=n > 1, freq=False, **tags)
+
+
 STREAMS = [
     Stream("forward", gen_forward, run_forward, quick=360, thorough=3600),
     Stream("evidence", gen_ev, run_ev, quick=300, thorough=3000),
     Stream("gibbs", gen_gibbs, run_gibbs, quick=300, thorough=3000),
     Stream("simulate", gen_sim, run_sim, quick=180, thorough=1800),
+    Stream("gibbs_chain", gen_gibbs_chain, run_gibbs_chain, quick=90, thorough=900),
     Stream("zero_state", gen_zero_state, run_zero_state, quick=1800, thorough=18000),
 ]
 for _s in STREAMS:
